@@ -14,6 +14,7 @@ package proxy
 //@   flags safety libframe
 //@   requires @C19 p.callForwarder != nil && ctx != nil
 //@   ensures[forwarded-exactly-once] @C19 ghost.forwards == old(ghost.forwards) + 1
+//@   ensures[real-ip-added-iff-absent] @C19 ghost.realIPAdds == old(ghost.realIPAdds) + (ghost.lastPeekLen == 0 ? 1 : 0)
 //@   ensures[status-transparent] @C19 statOK(cmdStat(ghost.lastCmd)) || statCode(cmdStat(ghost.lastCmd)) >= 200 || statCode(cmdStat(ghost.lastCmd)) <= 99 ==> result.1 == cmdStat(ghost.lastCmd)
 //@   ensures[connection-failure-is-bad-gateway] @C19 !statOK(cmdStat(ghost.lastCmd)) && statCode(cmdStat(ghost.lastCmd)) < 200 && statCode(cmdStat(ghost.lastCmd)) > 99 ==> statCode(result.1) == erpc.CodeBadGateway && result.1 != cmdStat(ghost.lastCmd)
 //@ func (*proxy).push
@@ -21,6 +22,7 @@ package proxy
 //@   flags safety libframe
 //@   requires @C19 p.pushForwarder != nil && ctx != nil
 //@   ensures[forwarded-exactly-once] @C19 ghost.forwards == old(ghost.forwards) + 1
+//@   ensures[real-ip-added-iff-absent] @C19 ghost.realIPAdds == old(ghost.realIPAdds) + (ghost.lastPeekLen == 0 ? 1 : 0)
 
 // ---- C19: the proxy is transparent --------------------------------------------------
 // The proxied request is forwarded exactly once; what comes back (body bytes,
@@ -53,8 +55,11 @@ package proxy
 // (no reply received: the reply metadata of a call command is nil)
 //@ iface erpc.CallCmd.InputMeta
 //@   modifies nothing
+//@ ghost global realIPAdds int
+//@ ghost global lastPeekLen int
 //@ iface dynamic:func(key string, value string) socket.MessageSetting
-//@   flags pure
+//@   modifies ghost.realIPAdds
+//@   ghostset ghost.realIPAdds = old(ghost.realIPAdds) + (key == erpc.MetaRealIP ? 1 : 0)
 //@ iface erpc.CtxSession.ID
 //@   flags pure
 //@ iface erpc.UnknownCallCtx.IP
@@ -62,7 +67,8 @@ package proxy
 //@ iface erpc.UnknownCallCtx.InputBodyBytes
 //@   flags pure
 //@ iface erpc.UnknownCallCtx.PeekMeta
-//@   flags pure
+//@   modifies ghost.lastPeekLen
+//@   ghostset ghost.lastPeekLen = len(result)
 //@ iface erpc.UnknownCallCtx.ServiceMethod
 //@   flags pure
 //@ iface erpc.UnknownCallCtx.Session
@@ -77,7 +83,8 @@ package proxy
 //@ iface erpc.UnknownPushCtx.InputBodyBytes
 //@   flags pure
 //@ iface erpc.UnknownPushCtx.PeekMeta
-//@   flags pure
+//@   modifies ghost.lastPeekLen
+//@   ghostset ghost.lastPeekLen = len(result)
 //@ iface erpc.UnknownPushCtx.ServiceMethod
 //@   flags pure
 //@ iface erpc.UnknownPushCtx.Session
